@@ -216,6 +216,33 @@ def run_server(mode, wd, v, pre=False, rnd=None):
     return ([{"ev": "Proc", "mode": mode}] + evs + [{"ev": "SessionOk", "ok": persisted, "wrote": sorted(wrote)}]), raw
 
 
+def run_tcp_busy(wd):
+    """TCP mode while the default port is taken: whatever the server does then, it must not listen anywhere
+    but on loopback (the unchanged tree gives up)."""
+    home = os.path.join(wd, "home_tcp_busy")
+    os.makedirs(home, exist_ok=True)
+    hold = socket.socket()
+    hold.setsockopt(socket.SOL_SOCKET, socket.SO_REUSEADDR, 1)
+    try:
+        hold.bind(("127.0.0.1", 4000))
+        hold.listen(1)
+    except OSError:
+        raise common.ToolError("port 4000 is busy: cannot run the busy-port TCP session")
+    st = os.path.join(wd, "strace_tcp_busy.txt")
+    env = dict(os.environ, HOME=home, XDG_CONFIG_HOME=os.path.join(home, "xdg_config"), XDG_DATA_HOME=os.path.join(home, "xdg_data"))
+    p = subprocess.Popen(["strace", "-f", "-o", st, "-e", "trace=" + SYSCALLS, LS_BIN], stdin=subprocess.DEVNULL,
+                         stdout=subprocess.PIPE, stderr=subprocess.DEVNULL, env=env, cwd=home, start_new_session=True)
+    try:
+        p.wait(timeout=4)
+    except subprocess.TimeoutExpired:
+        pass
+    _kill_group(p)
+    hold.close()
+    pol = {"userDict": "/nonexistent/a", "fileDictDir": "/nonexistent/b", "stats": "/nonexistent/c"}
+    evs, raw = parse_strace(st, pol, home)
+    return [{"ev": "Proc", "mode": "tcp"}] + evs + [{"ev": "SessionOk", "ok": True, "wrote": []}], raw
+
+
 def run_lib(wd, corp):
     st = os.path.join(wd, "strace_lib.txt")
     p = subprocess.run(["strace", "-f", "-o", st, "-e", "trace=" + SYSCALLS, common.HV, "lintonly", "--corpus", corp, "--docs", "150"],
@@ -269,6 +296,9 @@ def run(v):
         e, raw = run_server(mode, wd, v, pre)
         evs += e
         raws[mode + ("_pre" if pre else "")] = raw
+    e, raw = run_tcp_busy(wd)
+    evs += e
+    raws["tcp_busy"] = raw
     nrand = 12 if thorough else 2
     sentences = [json.loads(l) for l in open(corp)][:600]
     for k in range(nrand):
@@ -286,7 +316,7 @@ def run(v):
     consumed, rejects, _ = common.validate_trace(TRACE_TLA, TRACE_CFG, trace, "c10_t", timeout=600)
     if consumed != len(evs):
         raise common.ToolError(f"trace: consumed {consumed} of {len(evs)} events")
-    v.cov["traces_validated_against_impl"] = 4 + nrand
+    v.cov["traces_validated_against_impl"] = 5 + nrand
     v.cov["evaluations"] = len(evs)
     v.cov["distinct_nontrivial"] = len({(x.get("call"), x.get("pclass"), x.get("family"), x.get("name")) for x in evs})
     v.cov["samples"] = [x for x in evs if x["ev"] == "Sys"][:6] + [x for x in evs if x["ev"] == "Dep"][:3]
